@@ -225,4 +225,486 @@ theorem weight_positive (w : List Int) (v : Int) (hw : ∀ x ∈ w, 0 ≤ x) (hn
   have := (weight_measure w hw _ hk v hv0 hv).mp rfl
   omega
 
+/-! ### sampling -/
+
+theorem nodup_reverse' {l : List Nat} (h : l.Nodup) : l.reverse.Nodup := by
+  unfold List.Nodup at *
+  rw [List.pairwise_reverse]
+  exact h.imp (fun h => Ne.symm h)
+
+theorem sampleNoRepl_aux (draws : List Nat) :
+    ∀ (k : Nat) (acc r : List Nat), acc.Nodup → sampleNoRepl draws k acc = some r →
+      r.length = acc.length + k ∧ r.Nodup ∧ ∀ x ∈ r, x ∈ acc ∨ x ∈ draws := by
+  induction draws with
+  | nil =>
+    intro k acc r hnd h
+    cases k with
+    | zero =>
+      simp only [sampleNoRepl, Option.some.injEq] at h
+      subst h
+      exact ⟨by simp, nodup_reverse' hnd, fun x hx => Or.inl (List.mem_reverse.mp hx)⟩
+    | succ k => simp [sampleNoRepl] at h
+  | cons d ds ih =>
+    intro k acc r hnd h
+    cases k with
+    | zero =>
+      simp only [sampleNoRepl, Option.some.injEq] at h
+      subst h
+      exact ⟨by simp, nodup_reverse' hnd, fun x hx => Or.inl (List.mem_reverse.mp hx)⟩
+    | succ k =>
+      simp only [sampleNoRepl] at h
+      by_cases hc : acc.contains d = true
+      · simp only [hc, if_true] at h
+        obtain ⟨h1, h2, h3⟩ := ih (k + 1) acc r hnd h
+        refine ⟨h1, h2, fun x hx => ?_⟩
+        rcases h3 x hx with h | h
+        · exact Or.inl h
+        · exact Or.inr (List.mem_cons_of_mem _ h)
+      · simp only [hc] at h
+        have hd : d ∉ acc := by simpa using hc
+        obtain ⟨h1, h2, h3⟩ := ih k (d :: acc) r (List.nodup_cons.mpr ⟨hd, hnd⟩) h
+        refine ⟨by simp at h1; omega, h2, fun x hx => ?_⟩
+        rcases h3 x hx with h | h
+        · rcases List.mem_cons.mp h with h | h
+          · exact Or.inr (by simp [h])
+          · exact Or.inl h
+        · exact Or.inr (List.mem_cons_of_mem _ h)
+
+theorem sampleNoRepl_spec (draws : List Nat) (k n : Nat) (r : List Nat)
+    (hd : ∀ d ∈ draws, d < n) (h : sampleNoRepl draws k [] = some r) :
+    r.length = k ∧ r.Nodup ∧ (∀ x ∈ r, x < n) ∧ (∀ x ∈ r, x ∈ draws) := by
+  obtain ⟨h1, h2, h3⟩ := sampleNoRepl_aux draws k [] r List.nodup_nil h
+  have h4 : ∀ x ∈ r, x ∈ draws := fun x hx => by
+    rcases h3 x hx with h | h
+    · simp at h
+    · exact h
+  exact ⟨by simpa using h1, h2, fun x hx => hd x (h4 x hx), h4⟩
+
+theorem sampleRepl_spec (draws : List Nat) (k n : Nat) (r : List Nat)
+    (hd : ∀ d ∈ draws, d < n) (h : sampleRepl draws k = some r) :
+    r.length = k ∧ ∀ x ∈ r, x < n := by
+  unfold sampleRepl at h
+  by_cases hlt : draws.length < k
+  · simp [hlt] at h
+  · simp only [hlt, if_false, Option.some.injEq] at h
+    subst h
+    exact ⟨by simp; omega, fun x hx => hd x (List.mem_of_mem_take hx)⟩
+
+/-! ### tournament -/
+
+theorem argmaxIdxAux_spec (xs : List Int) :
+    ∀ (b : Int) (bi i : Nat),
+      (argmaxIdxAux b bi i xs = bi ∧ ∀ x ∈ xs, x ≤ b) ∨
+      (i ≤ argmaxIdxAux b bi i xs ∧ argmaxIdxAux b bi i xs < i + xs.length ∧
+        b ≤ xs.getD (argmaxIdxAux b bi i xs - i) 0 ∧
+        ∀ x ∈ xs, x ≤ xs.getD (argmaxIdxAux b bi i xs - i) 0) := by
+  induction xs with
+  | nil => intro b bi i; left; simp [argmaxIdxAux]
+  | cons x xs ih =>
+    intro b bi i
+    simp only [argmaxIdxAux]
+    by_cases hb : b < x
+    · simp only [hb, if_true]
+      right
+      rcases ih x i (i + 1) with ⟨h1, h2⟩ | ⟨h1, h2, h3, h4⟩
+      · rw [h1]
+        refine ⟨Nat.le_refl _, by simp, ?_, ?_⟩
+        · simp [List.getD]; omega
+        · intro y hy
+          simp only [Nat.sub_self, List.getD, List.getElem?_cons_zero, Option.getD_some]
+          rcases List.mem_cons.mp hy with rfl | hy
+          · exact Int.le_refl _
+          · exact h2 y hy
+      · generalize argmaxIdxAux x i (i + 1) xs = r at *
+        have hr : r - i = (r - (i + 1)) + 1 := by omega
+        refine ⟨by omega, by simp; omega, ?_, ?_⟩
+        · rw [hr]; simp only [List.getD, List.getElem?_cons_succ] at *; omega
+        · intro y hy
+          rw [hr]; simp only [List.getD, List.getElem?_cons_succ] at *
+          rcases List.mem_cons.mp hy with rfl | hy
+          · exact h3
+          · exact h4 y hy
+    · simp only [hb, if_false]
+      rcases ih b bi (i + 1) with ⟨h1, h2⟩ | ⟨h1, h2, h3, h4⟩
+      · left
+        refine ⟨h1, fun y hy => ?_⟩
+        rcases List.mem_cons.mp hy with rfl | hy
+        · omega
+        · exact h2 y hy
+      · right
+        generalize argmaxIdxAux b bi (i + 1) xs = r at *
+        have hr : r - i = (r - (i + 1)) + 1 := by omega
+        refine ⟨by omega, by simp; omega, ?_, ?_⟩
+        · rw [hr]; simp only [List.getD, List.getElem?_cons_succ] at *; omega
+        · intro y hy
+          rw [hr]; simp only [List.getD, List.getElem?_cons_succ] at *
+          rcases List.mem_cons.mp hy with rfl | hy
+          · omega
+          · exact h4 y hy
+
+theorem argmaxIdx_spec (l : List Int) (hne : l ≠ []) :
+    argmaxIdx l < l.length ∧ ∀ y ∈ l, y ≤ l.getD (argmaxIdx l) 0 := by
+  cases l with
+  | nil => exact absurd rfl hne
+  | cons x xs =>
+    simp only [argmaxIdx]
+    rcases argmaxIdxAux_spec xs x 0 1 with ⟨h1, h2⟩ | ⟨h1, h2, h3, h4⟩
+    · rw [h1]
+      refine ⟨by simp, fun y hy => ?_⟩
+      simp only [List.getD, List.getElem?_cons_zero, Option.getD_some]
+      rcases List.mem_cons.mp hy with rfl | hy
+      · exact Int.le_refl _
+      · exact h2 y hy
+    · generalize argmaxIdxAux x 0 1 xs = r at *
+      have hr : r = (r - 1) + 1 := by omega
+      refine ⟨by simp; omega, fun y hy => ?_⟩
+      rw [hr]; simp only [List.getD, List.getElem?_cons_succ] at *
+      rcases List.mem_cons.mp hy with rfl | hy
+      · exact h3
+      · exact h4 y hy
+
+theorem tournament_spec (fitness : List Int) (sample : List Nat) (hne : sample ≠ []) :
+    let wi := tournament fitness sample
+    wi ∈ sample ∧ (∀ x ∈ sample, fitness.getD x 0 ≤ fitness.getD wi 0) := by
+  intro wi
+  have hne' : sample.map (fun i => fitness.getD i 0) ≠ [] := by simpa using hne
+  obtain ⟨h1, h2⟩ := argmaxIdx_spec _ hne'
+  rw [List.length_map] at h1
+  have hwi : wi = sample[argmaxIdx (sample.map fun i => fitness.getD i 0)] := by
+    show tournament fitness sample = _
+    unfold tournament
+    exact getD_eq_getElem _ _ _ h1
+  refine ⟨by rw [hwi]; exact List.getElem_mem _, fun x hx => ?_⟩
+  have := h2 (fitness.getD x 0) (List.mem_map.mpr ⟨x, hx, rfl⟩)
+  rw [getD_eq_getElem (sample.map fun i => fitness.getD i 0) _ _
+    (by rw [List.length_map]; exact h1), List.getElem_map, ← hwi] at this
+  exact this
+
+theorem range_erase_length (n j : Nat) (hj : j < n) : ((List.range n).erase j).length = n - 1 := by
+  rw [List.length_erase]; simp [hj]
+
+theorem tournament_rank (fitness : List Int) (sample : List Nat) (hne : sample ≠ [])
+    (hnd : sample.Nodup) (hr : ∀ x ∈ sample, x < fitness.length) :
+    let wi := tournament fitness sample
+    sample.length - 1 ≤
+      ((List.range fitness.length).filter fun j => j ≠ wi ∧ fitness.getD j 0 ≤ fitness.getD wi 0).length ∧
+    (sample.length = fitness.length → ∀ j, j < fitness.length → fitness.getD j 0 ≤ fitness.getD wi 0) := by
+  intro wi
+  obtain ⟨hmem, hbest⟩ := tournament_spec fitness sample hne
+  change wi ∈ sample at hmem
+  change ∀ x ∈ sample, fitness.getD x 0 ≤ fitness.getD wi 0 at hbest
+  constructor
+  · have hlen : (sample.erase wi).length = sample.length - 1 := by
+      rw [List.length_erase]; simp [hmem]
+    rw [← hlen]
+    apply List.Nodup.length_le_of_subset (hnd.erase wi)
+    intro x hx
+    have hxs : x ∈ sample := List.mem_of_mem_erase hx
+    have hxne : x ≠ wi := fun h => by
+      subst h; exact (List.Nodup.not_mem_erase hnd) hx
+    simp only [List.mem_filter, List.mem_range, decide_eq_true_eq]
+    exact ⟨hr x hxs, hxne, hbest x hxs⟩
+  · intro hlen j hj
+    apply hbest
+    apply Classical.byContradiction
+    intro hnot
+    have hsub : sample ⊆ (List.range fitness.length).erase j := by
+      intro x hx
+      have hxj : x ≠ j := fun h => hnot (h ▸ hx)
+      exact (List.mem_erase_of_ne hxj).mpr (List.mem_range.mpr (hr x hx))
+    have := List.Nodup.length_le_of_subset hnd hsub
+    rw [range_erase_length _ _ hj] at this
+    omega
+
+/-! ### integer and uniform draws -/
+
+theorem randint_range (low high : Int) (U : Rat) (hlh : low < high) (h0 : 0 ≤ U) (h1 : U < 1) :
+    low ≤ randint low high U ∧ randint low high U < high := by
+  unfold randint
+  have hp : (0 : Rat) < ((high - low : Int) : Rat) := by
+    have : (0 : Int) < high - low := by omega
+    exact_mod_cast this
+  have hnn : (((0 : Int) : Rat)) ≤ ((high - low : Int) : Rat) * U :=
+    Rat.mul_nonneg (Rat.le_of_lt hp) h0
+  have hlt : ((high - low : Int) : Rat) * U < ((high - low : Int) : Rat) := by
+    have := Rat.mul_lt_mul_of_pos_left h1 hp
+    rwa [Rat.mul_one] at this
+  have a := Rat.le_floor_iff.mpr hnn
+  have b := Rat.floor_lt_iff.mpr hlt
+  omega
+
+theorem uniform_range (low high U : Rat) (hlh : low ≤ high) (h0 : 0 ≤ U) (h1 : U < 1) :
+    low ≤ uniform low high U ∧ uniform low high U ≤ high := by
+  unfold uniform
+  have hp : 0 ≤ high - low := by grind
+  have := Rat.mul_nonneg hp h0
+  have := Rat.mul_le_mul_of_nonneg_left (Rat.le_of_lt h1) hp
+  grind
+
+/-! ### min-max scaling -/
+
+theorem foldl_max_spec (xs : List Rat) : ∀ a : Rat,
+    a ≤ xs.foldl max a ∧ (∀ x ∈ xs, x ≤ xs.foldl max a) ∧ xs.foldl max a ∈ a :: xs := by
+  induction xs with
+  | nil => intro a; simp
+  | cons x xs ih =>
+    intro a
+    obtain ⟨h1, h2, h3⟩ := ih (max a x)
+    simp only [List.foldl_cons]
+    refine ⟨by grind, ?_, ?_⟩
+    · intro y hy
+      rcases List.mem_cons.mp hy with rfl | hy
+      · grind
+      · exact h2 y hy
+    · rcases List.mem_cons.mp h3 with h | h
+      · rw [h]
+        have : max a x = a ∨ max a x = x := by grind
+        rcases this with h | h <;> simp [h]
+      · simp [h]
+
+theorem foldl_min_spec (xs : List Rat) : ∀ a : Rat,
+    xs.foldl min a ≤ a ∧ (∀ x ∈ xs, xs.foldl min a ≤ x) ∧ xs.foldl min a ∈ a :: xs := by
+  induction xs with
+  | nil => intro a; simp
+  | cons x xs ih =>
+    intro a
+    obtain ⟨h1, h2, h3⟩ := ih (min a x)
+    simp only [List.foldl_cons]
+    refine ⟨by grind, ?_, ?_⟩
+    · intro y hy
+      rcases List.mem_cons.mp hy with rfl | hy
+      · grind
+      · exact h2 y hy
+    · rcases List.mem_cons.mp h3 with h | h
+      · rw [h]
+        have : min a x = a ∨ min a x = x := by grind
+        rcases this with h | h <;> simp [h]
+      · simp [h]
+
+theorem listMax_spec (d : List Rat) (hne : d ≠ []) :
+    (∀ x ∈ d, x ≤ listMax d) ∧ listMax d ∈ d := by
+  cases d with
+  | nil => exact absurd rfl hne
+  | cons a xs =>
+    obtain ⟨h1, h2, h3⟩ := foldl_max_spec xs a
+    refine ⟨fun y hy => ?_, h3⟩
+    rcases List.mem_cons.mp hy with rfl | hy
+    · exact h1
+    · exact h2 y hy
+
+theorem listMin_spec (d : List Rat) (hne : d ≠ []) :
+    (∀ x ∈ d, listMin d ≤ x) ∧ listMin d ∈ d := by
+  cases d with
+  | nil => exact absurd rfl hne
+  | cons a xs =>
+    obtain ⟨h1, h2, h3⟩ := foldl_min_spec xs a
+    refine ⟨fun y hy => ?_, h3⟩
+    rcases List.mem_cons.mp hy with rfl | hy
+    · exact h1
+    · exact h2 y hy
+
+theorem scale_range (a b c : Rat) (h : a ≤ b) (h2 : b ≤ c) (h3 : a < c) :
+    0 ≤ (b - a) / (c - a) ∧ (b - a) / (c - a) ≤ 1 := by
+  have hp : 0 < c - a := by grind
+  have hi : 0 < (c - a)⁻¹ := Rat.inv_pos.mpr hp
+  rw [Rat.div_def]
+  constructor
+  · apply Rat.mul_nonneg _ (Rat.le_of_lt hi); grind
+  · have := Rat.mul_le_mul_of_nonneg_right (show b - a ≤ c - a by grind) (Rat.le_of_lt hi)
+    rw [Rat.mul_inv_cancel _ (Rat.ne_of_gt hp)] at this
+    exact this
+
+theorem minmax_spec (d : List Rat) :
+    (minmax d).length = d.length ∧ (∀ y ∈ minmax d, 0 ≤ y ∧ y ≤ 1) ∧
+    ((∀ x ∈ d, ∀ y ∈ d, x = y) → ∀ y ∈ minmax d, y = 1) := by
+  unfold minmax
+  by_cases heq : listMax d = listMin d
+  · simp only [heq, if_true]
+    refine ⟨by simp, ?_, ?_⟩
+    · intro y hy
+      obtain ⟨_, _, rfl⟩ := List.mem_map.mp hy
+      exact ⟨by decide, by decide⟩
+    · intro _ y hy
+      obtain ⟨_, _, rfl⟩ := List.mem_map.mp hy
+      rfl
+  · simp only [heq, if_false]
+    have hne : d ≠ [] := by
+      intro h; subst h; exact heq rfl
+    obtain ⟨hmax, hmaxmem⟩ := listMax_spec d hne
+    obtain ⟨hmin, hminmem⟩ := listMin_spec d hne
+    refine ⟨by simp, ?_, ?_⟩
+    · intro y hy
+      obtain ⟨x, hx, rfl⟩ := List.mem_map.mp hy
+      have hlt : listMin d < listMax d := by
+        have := hmax _ hminmem
+        grind
+      exact scale_range _ _ _ (hmin x hx) (hmax x hx) hlt
+    · intro hall
+      exact absurd (hall _ hmaxmem _ hminmem) heq
+
+/-! ### swap -/
+
+theorem swap_of_lt {α : Type} (l : List α) (i j : Nat) (hi : i < l.length) (hj : j < l.length) :
+    swap l i j = (l.set i l[j]).set j l[i] := by
+  simp [swap, List.getElem?_eq_getElem hi, List.getElem?_eq_getElem hj]
+
+theorem swap_of_not_lt {α : Type} (l : List α) (i j : Nat) (h : ¬ (i < l.length ∧ j < l.length)) :
+    swap l i j = l := by
+  unfold swap
+  split
+  · next a b h1 h2 =>
+    have := (List.getElem?_eq_some_iff.mp h1).1
+    have := (List.getElem?_eq_some_iff.mp h2).1
+    exact absurd ⟨‹i < l.length›, ‹j < l.length›⟩ h
+  · rfl
+
+theorem swap_perm {α : Type} (l : List α) (i j : Nat) : (swap l i j).Perm l := by
+  by_cases h : i < l.length ∧ j < l.length
+  · rw [swap_of_lt l i j h.1 h.2]; exact List.set_set_perm h.1 h.2
+  · rw [swap_of_not_lt l i j h]
+
+theorem swap_length {α : Type} (l : List α) (i j : Nat) : (swap l i j).length = l.length :=
+  (swap_perm l i j).length_eq
+
+theorem swap_getD {α : Type} (l : List α) (i j : Nat) (hi : i < l.length) (hj : j < l.length)
+    (p : Nat) (d : α) :
+    (swap l i j).getD p d = if p = j then l.getD i d else if p = i then l.getD j d else l.getD p d := by
+  rw [swap_of_lt l i j hi hj]
+  simp only [List.getD, List.getElem?_set, List.length_set]
+  by_cases h1 : p = j
+  · subst h1; simp [hi, hj]
+  · by_cases h2 : p = i
+    · subst h2; simp [hi, hj, h1, Ne.symm h1]
+    · simp [h1, h2, Ne.symm h1, Ne.symm h2]
+
+/-! ### argsort_k / p-best -/
+
+theorem getD_drop (l : List Int) (i j : Nat) : (l.drop i).getD j 0 = l.getD (i + j) 0 := by
+  simp [List.getD]
+
+theorem maxPosFrom_spec (vals : List Int) (i : Nat) (hi : i < vals.length) :
+    i ≤ maxPosFrom vals i ∧ maxPosFrom vals i < vals.length ∧
+    ∀ q, i ≤ q → q < vals.length → vals.getD q 0 ≤ vals.getD (maxPosFrom vals i) 0 := by
+  have hne : vals.drop i ≠ [] := by
+    intro h
+    have := congrArg List.length h
+    simp at this; omega
+  obtain ⟨h1, h2⟩ := argmaxIdx_spec (vals.drop i) hne
+  rw [List.length_drop] at h1
+  unfold maxPosFrom
+  refine ⟨by omega, by omega, fun q hq hqn => ?_⟩
+  rw [← getD_drop]
+  apply h2
+  have : vals.getD q 0 = (vals.drop i).getD (q - i) 0 := by
+    rw [getD_drop]; congr 1; omega
+  rw [this, getD_eq_getElem _ _ _ (by rw [List.length_drop]; omega)]
+  exact List.getElem_mem _
+
+/-- loop invariant of the partial selection sort -/
+structure SortInv (vals0 : List Int) (i : Nat) (vals : List Int) (idx : List Nat) : Prop where
+  lenV : vals.length = vals0.length
+  lenI : idx.length = vals0.length
+  perm : idx.Perm (List.range vals0.length)
+  val : ∀ p, p < vals0.length → vals.getD p 0 = vals0.getD (idx.getD p 0) 0
+  sorted : ∀ p, p < i → ∀ q, p ≤ q → q < vals0.length → vals.getD q 0 ≤ vals.getD p 0
+
+theorem sortInv_step (vals0 : List Int) (i : Nat) (vals : List Int) (idx : List Nat)
+    (h : SortInv vals0 i vals idx) (hi : i < vals0.length) :
+    SortInv vals0 (i + 1) (swap vals i (maxPosFrom vals i)) (swap idx i (maxPosFrom vals i)) := by
+  obtain ⟨hV, hI, hP, hval, hs⟩ := h
+  obtain ⟨hm1, hm2, hm3⟩ := maxPosFrom_spec vals i (by omega)
+  generalize maxPosFrom vals i = m at *
+  have gV := swap_getD vals i m (by omega) (by omega)
+  have gI := swap_getD idx i m (by omega) (by omega)
+  refine ⟨by rw [swap_length]; exact hV, by rw [swap_length]; exact hI,
+    (swap_perm idx i m).trans hP, ?_, ?_⟩
+  · intro p hp
+    rw [gV, gI]
+    have := hval i hi
+    have := hval m (by omega)
+    have := hval p hp
+    grind
+  · intro p hp q hpq hq
+    rw [gV, gV]
+    have := hm3 q
+    have := hm3 i
+    have := hs p
+    grind
+
+theorem argsortKAux_spec (vals0 : List Int) : ∀ (k i : Nat) (vals : List Int) (idx : List Nat),
+    SortInv vals0 i vals idx → i + k ≤ vals0.length →
+    ∃ vals', SortInv vals0 (i + k) vals' (argsortKAux k i vals idx) := by
+  intro k
+  induction k with
+  | zero => intro i vals idx h _; exact ⟨vals, h⟩
+  | succ k ih =>
+    intro i vals idx h hk
+    simp only [argsortKAux]
+    have := ih (i + 1) _ _ (sortInv_step vals0 i vals idx h (by omega)) (by omega)
+    rwa [show i + 1 + k = i + (k + 1) by omega] at this
+
+theorem range_getD (n p : Nat) (hp : p < n) : (List.range n).getD p 0 = p := by
+  simp [List.getD, hp]
+
+theorem argsortK_spec (vals : List Int) (k : Nat) (hk : k ≤ vals.length) :
+    ∃ vals', SortInv vals k vals' (argsortK vals k) := by
+  have h0 : SortInv vals 0 vals (List.range vals.length) :=
+    ⟨rfl, by simp, List.Perm.refl _, fun p hp => by rw [range_getD _ _ hp],
+      fun p hp => by omega⟩
+  have := argsortKAux_spec vals k 0 vals _ h0 (by omega)
+  simpa [argsortK] using this
+
+theorem pbestCount_le (n pn pd : Nat) (hn : 0 < n) (_hpd : 0 < pd) (hp : pn ≤ pd) :
+    pbestCount n pn pd ≤ n := by
+  unfold pbestCount
+  have : pn * n / pd ≤ n := by
+    apply Nat.div_le_of_le_mul
+    exact Nat.mul_le_mul_right n hp
+  omega
+
+theorem pbest_spec (vals : List Int) (pn pd : Nat) (hne : vals ≠ []) (hpd : 0 < pd) (hp : pn ≤ pd) :
+    let r := pbest vals pn pd
+    r.length = pbestCount vals.length pn pd ∧ r.Nodup ∧ (∀ i ∈ r, i < vals.length) ∧
+    (r.map fun i => vals.getD i 0).Pairwise (· ≥ ·) ∧
+    (∀ i ∈ r, ∀ j, j < vals.length → j ∉ r → vals.getD j 0 ≤ vals.getD i 0) := by
+  intro r
+  have hn : 0 < vals.length := List.length_pos_iff.mpr hne
+  have hc := pbestCount_le vals.length pn pd hn hpd hp
+  obtain ⟨vals', hV, hI, hP, hval, hs⟩ := argsortK_spec vals _ hc
+  have hr : r = (argsortK vals (pbestCount vals.length pn pd)).take (pbestCount vals.length pn pd) :=
+    rfl
+  clear_value r
+  generalize pbestCount vals.length pn pd = c at *
+  generalize argsortK vals c = idx at *
+  have hlen : r.length = c := by rw [hr, List.length_take]; omega
+  have hnd : idx.Nodup := (hP.nodup_iff).mpr List.nodup_range
+  have hget : ∀ p (hp : p < r.length), r[p] = idx.getD p 0 := by
+    intro p hp
+    rw [getD_eq_getElem idx p 0 (by omega)]
+    subst hr; simp
+  refine ⟨hlen, ?_, ?_, ?_, ?_⟩
+  · rw [hr]; exact hnd.sublist (List.take_sublist _ _)
+  · intro i hi
+    rw [hr] at hi
+    exact List.mem_range.mp (hP.subset (List.mem_of_mem_take hi))
+  · rw [List.pairwise_iff_getElem]
+    intro p q hp hq hpq
+    simp only [List.length_map] at hp hq
+    simp only [List.getElem_map]
+    rw [hget p hp, hget q hq, ← hval p (by omega), ← hval q (by omega)]
+    exact hs p (by omega) q (by omega) (by omega)
+  · intro i hi j hj hjr
+    obtain ⟨p, hp, rfl⟩ := List.mem_iff_getElem.mp hi
+    have hjm : j ∈ idx := hP.symm.subset (List.mem_range.mpr hj)
+    obtain ⟨q, hq, rfl⟩ := List.mem_iff_getElem.mp hjm
+    have hqc : c ≤ q := by
+      apply Nat.le_of_not_lt
+      intro hlt
+      apply hjr
+      have : idx[q] = r[q]'(by omega) := by
+        rw [hget q (by omega), getD_eq_getElem idx q 0 hq]
+      rw [this]; exact List.getElem_mem _
+    rw [hget p hp, ← hval p (by omega), ← getD_eq_getElem idx q 0 hq, ← hval q (by omega)]
+    exact hs p (by omega) q (by omega) (by omega)
+
 end TFV.Select
